@@ -58,6 +58,15 @@ def replay(case) -> dict:
         parent.add_tomogram(wrap(imgs[1]), mole)
         which = 1
     pos_before = np.array(parent.molecules.pos, copy=True)
+    # history: the parent (or a sibling derived from it) may have been USED before it is binned; the binned loader must look at the
+    # binned image all the same, and the parent at its own image afterwards
+    use = ("none", "parent", "sibling", "parent")[case.get("_u", 0) % 4]
+    desc["used_before"] = use
+    idx_p = 0 if cfg["kind"] == "single" else 1
+    first = None
+    if use != "none" and cfg["order"] != 0 or use != "none" and cfg["R"] == [[1, 0, 0], [0, 1, 0], [0, 0, 1]]:
+        user = parent if use == "parent" else parent.copy()
+        first = np.asarray(engine.api(user.load, idx_p, tuple(min(int(x) * b, 3 * b) for x in s)), dtype=np.float64)
     binned = engine.api(parent.binning, b, compute=cfg["compute"])
     # bookkeeping claims
     if abs(binned.scale - b * scale) > 1e-9:
@@ -137,6 +146,10 @@ def replay(case) -> dict:
         if abs(got[i] - want) > 1e-3 * max(1.0, abs(want)):
             failures.append(dict(desc, clause="BlockSum", voxel=i, observed=float(got[i]), expected=float(want)))
             break
+    if first is not None and not failures:
+        again = np.asarray(engine.api(parent.load, idx_p, tuple(min(int(x) * b, 3 * b) for x in s)), dtype=np.float64)
+        if again.shape != first.shape or not np.allclose(again, first, atol=1e-4 * max(1.0, float(np.abs(first).max())), equal_nan=True):
+            failures.append(dict(desc, clause="ParentLoadsAsBefore"))
     return dict(failures=failures, classes={"exact_voxels": nx})
 
 
@@ -148,6 +161,7 @@ def run(rep: engine.Report, tier: str, seed: int):
     for i, c in enumerate(cases):
         c["_h"] = (i * 31 + seed) % 3
         c["_v"] = (i * 17 + seed) % 4
+        c["_u"] = (i * 13 + seed) % 4
     budget = 1500 if tier == "quick" else len(cases)
     sel = engine.stratified_sample(cases, lambda c: (c["cfg"]["b"], tuple(c["cfg"]["s"]), c["cfg"]["kind"], c["cfg"]["lazy"], c["cfg"]["mix"], c["cfg"]["compute"]), budget, seed)
     have = {json.dumps(c["cfg"], sort_keys=True) for c in sel}
